@@ -160,6 +160,9 @@ func (h *Handler) AnnounceTo(dst net.HardwareAddr, targetIP netip.Addr) (err err
 // +============+===+===========+===========+============+============+===================+===========+
 //
 func (h *Handler) RequestRaw(dst net.HardwareAddr, sender packet.Addr, target packet.Addr) (err error) {
+	if err = checkARPArgs(dst, sender, target); err != nil {
+		return err
+	}
 	b := packet.EtherBufferPool.Get().(*[packet.EthMaxSize]byte)
 	defer packet.EtherBufferPool.Put(b)
 	ether := packet.Ether(b[0:])
@@ -173,6 +176,18 @@ func (h *Handler) RequestRaw(dst net.HardwareAddr, sender packet.Addr, target pa
 
 	_, err = h.session.Conn.WriteTo(ether, &packet.Addr{MAC: dst})
 	return err
+}
+
+// checkARPArgs refuses what EncodeEther/EncodeARP cannot encode: they copy as many bytes as the argument has,
+// so a short MAC or a non IPv4 address would leave stale bytes of the pooled buffer in the frame (or panic).
+func checkARPArgs(dst net.HardwareAddr, sender packet.Addr, target packet.Addr) error {
+	if len(dst) != 6 || len(sender.MAC) != 6 || len(target.MAC) != 6 {
+		return packet.ErrInvalidMAC
+	}
+	if !sender.IP.Is4() || !target.IP.Is4() {
+		return packet.ErrInvalidIP
+	}
+	return nil
 }
 
 // Reply send ARP reply from the src to the dst
@@ -190,6 +205,9 @@ func (h *Handler) Reply(dst net.HardwareAddr, sender packet.Addr, target packet.
 //
 // dstEther identifies the target for the Ethernet packet : i.e. use EthernetBroadcast for gratuitous ARP
 func (h *Handler) reply(dst net.HardwareAddr, sender packet.Addr, target packet.Addr) (err error) {
+	if err = checkARPArgs(dst, sender, target); err != nil {
+		return err
+	}
 	b := packet.EtherBufferPool.Get().(*[packet.EthMaxSize]byte)
 	defer packet.EtherBufferPool.Put(b)
 	ether := packet.Ether(b[0:])
